@@ -43,6 +43,7 @@ var (
 	opDataAs2  = MOp{K: "data", PID: 0x100, Len: 168}
 	opDataA3   = MOp{K: "data", PID: 0x100, Len: 454}
 	opDataA17  = MOp{K: "data", PID: 0x100, Len: 170 + 16*184}
+	opDataA40  = MOp{K: "data", PID: 0x100, Len: 100 + 40*184} // the counter goes round more than twice inside one call
 	opDataARAI = MOp{K: "data", PID: 0x100, Len: 50, AF: "raipcr"}
 	opDataAprv = MOp{K: "data", PID: 0x100, Len: 400, AF: "priv10"}
 	opDataAopc = MOp{K: "data", PID: 0x100, Len: 200, AF: "opcr"}
@@ -86,7 +87,7 @@ var muxFullAlpha = []MOp{
 
 // A smaller alphabet for deeper searches.
 var muxCoreAlpha = []MOp{
-	opAddB, opRmA, opPcrA, opPcrX, opTables, opDataA1, opDataAs1, opDataA17, opDataARAI, opDataAnor, opDataAhdr, opDataB1, opDataX, opAddMany, opRmMany, opAddAuto, opDataAuto,
+	opAddB, opRmA, opPcrA, opPcrX, opTables, opDataA1, opDataAs1, opDataA17, opDataA40, opDataARAI, opDataAnor, opDataAhdr, opDataB1, opDataX, opAddMany, opRmMany, opAddAuto, opDataAuto,
 }
 
 var (
